@@ -799,6 +799,11 @@ class MacroProgram(ElementProgram):
         names = [attr[0] for attr in prepared]
         filtering = [[]]
 
+        # Attribute names are matched irrespective of case.
+        boolean_attributes = {
+            attr.lower() for attr in self.boolean_attributes
+        }
+
         for i, (name, text, quote, space, eq, expr) in enumerate(prepared):
             implicit_i18n = (
                 name is not None and
@@ -818,7 +823,10 @@ class MacroProgram(ElementProgram):
             # If (by heuristic) ``text`` contains one or more
             # interpolation expressions, apply interpolation
             # substitution to the text.
-            boolean = name in self.boolean_attributes
+            boolean = (
+                name is not None and
+                name.lower() in boolean_attributes
+            )
             if expr is None and text is not None and '${' in text:
                 default = None
                 expr = nodes.Substitution(
@@ -857,12 +865,12 @@ class MacroProgram(ElementProgram):
                             ('&', '<', '>', '"'),
                             '"',
                             set(filter(None, names[i:])),
-                            self.boolean_attributes
+                            boolean_attributes
                         )
                         for fs in filtering:
                             fs.append(expression)
                         filtering.append([])
-                    elif name in self.boolean_attributes:
+                    elif boolean:
                         value = nodes.Boolean(
                             expr, name, default, self.default_marker)
                     else:
